@@ -309,6 +309,14 @@ def special_domains(tier, rng):
         sufs += one_edits(r)
     sufs += [b"examplea", b"xexample.com", b"example.comm", b"foo.tests", b"example.co", b"example.example", b"example.test",
              b"test.example", b"example.com.com", b"com.example", b"example.co.uk", b"localhost.localdomain", b"a.onion.to"]
+    # a reserved name glued to a neighbour by a character that is legal INSIDE a label: never a whole label
+    for r in RESERVED:
+        for j in (b"-", b"_", b"0"):
+            sufs += [b"my" + j + r, b"x" + j + r, r.replace(b".", j + b"x.", 1) if b"." in r else r + j + b"x",
+                     b"www.my" + j + r, b"a.b.c.counter" + j + r]
+            if b"." in r:
+                a, b = r.split(b".", 1)
+                sufs += [a + b"." + b"x" + j + b, a + b"." + b + j + b"x", a + j + b]
     sufs = sorted(set(sufs))
     for suf in sufs:
         for cp in case_patterns(suf, rng)[:2 if tier == "quick" else 4]:
